@@ -445,7 +445,7 @@ def clause_f(c: Check):
     ok = len(loops) == 1 and isinstance(loops[0].iter, ast.Name) and loops[0].iter.id == 'DIRECTORIES' and any(
         isinstance(n, ast.Call) and isinstance(n.func, ast.Attribute) and n.func.attr == 'mk_dirs'
         for n in ast.walk(loops[0]))
-    rets = [n.value for n in walk_own(ca.node) if isinstance(n, ast.Return)]
+    rets = util.returned_values(ca)
     ok = ok and len(rets) == 1 and isinstance(rets[0], ast.Call) and ix.callee(ca.module, ca, rets[0]) == sdscls \
          and isinstance(rets[0].args[0], ast.Name) and rets[0].args[0].id == ca.positional_params()[0].arg
     c.expect(ok, 'C04-f', 'construct_at', 'construct_at does not create DIRECTORIES under the root it returns', ca.loc())
